@@ -113,9 +113,32 @@ def check_table(rule, fn, te, ret, table, enum_variants, diverging=(), extra_str
         else:
             t = arms[v]
         err = match(table[v], t, extra_strip)
+        if err and mir.CURRENT is not None:
+            # the arm may build its result through a private helper that is handed the constructor as a function item
+            t2 = canon.apply_fn_items(mir.CURRENT, te, t)
+            if t2 is not t:
+                t2 = _inline_plain_helpers(mir.CURRENT, te, t2)
+                err = match(table[v], t2, extra_strip)
         out.append(inst(rule, key, VIOLATION if err else OK, fn, None,
                         ("%s arm: %s" % (v, err)) if err else "%s ↦ %r" % (v, table[v])))
     return out
+
+
+def _inline_plain_helpers(prog, te, t, depth=3):
+    """operands wrapped by small private helpers (`boxed(x, m)` = Box::new(helper(x, m))): the helper bodies in place"""
+    if not isinstance(t, tuple) or not t or depth <= 0:
+        return t
+    if t[0] == "call":
+        args = tuple(_inline_plain_helpers(prog, te, a, depth) for a in t[2])
+        t = ("call", t[1], args) + tuple(t[3:])
+        if t[1].local or getattr(t[1], "res_local", False):
+            u = canon.inline_top(prog, te, t, ok=lambda h: h is not te.fn, depth=1)
+            if u is not t and strip(u) != strip(t):
+                return _inline_plain_helpers(prog, te, u, depth - 1)
+        return t
+    if t[0] == "agg":
+        return t[:4] + (tuple(_inline_plain_helpers(prog, te, a, depth) for a in t[4]),) + tuple(t[5:])
+    return t
 
 
 def variants_of(prog, adt_suffix):
@@ -241,8 +264,16 @@ def _worker(prog, entry, owner):
         nested = f.npath.startswith(e.npath + "::")
         called = any(f in prog.resolve(cs.callee) for cs in e.terms.calls if cs.callee.local or getattr(cs.callee, "res_local", False))
         bodies = [f] + [g for g in prog.lib_fns if g.npath.startswith(f.npath + "::{closure")]
-        if (nested or called) and any(f in prog.resolve(cs.callee) for g in bodies for cs in g.terms.calls
-                                     if cs.callee.name == f.name and (cs.callee.local or getattr(cs.callee, "res_local", False))):
+        def _calls(g_):
+            return [h for b_ in [g_] + [c_ for c_ in prog.lib_fns if c_.npath.startswith(g_.npath + "::{closure")]
+                    for cs in b_.terms.calls if cs.callee.local or getattr(cs.callee, "res_local", False)
+                    for h in prog.resolve(cs.callee) if "{closure" not in h.npath]
+        direct = any(f in prog.resolve(cs.callee) for g in bodies for cs in g.terms.calls
+                     if cs.callee.name == f.name and (cs.callee.local or getattr(cs.callee, "res_local", False)))
+        # ... or through a sibling nested in the same entry point (`helper` -> `binary` -> `helper`)
+        via = (nested or called) and not direct and any(
+            h is not f and h.npath.startswith(e.npath + "::") and f in _calls(h) for h in _calls(f))
+        if (nested or called) and (direct or via):
             cands.append(f)
     if len(cands) > 1:
         # several recursive helpers (the entry may also call a recursive query such as `unique_variables`): the worker is
